@@ -27,13 +27,13 @@ PROP = {
         "host name and destinations not hooked must leave the destination string untouched; everything else (bit-flipped, fragmented "
         "or mis-sized records, custom methods, header completing exactly at the deadline, header blocks > 192 KiB) may only become a name "
         "that occurs (case-insensitively, %-unescaped) in the bytes the hook read. "
-        "tcp-short: 13 short inputs (minimal HTTP with Host / Host:port / absolute URI / bare IPv6 literal / no host, the smallest "
+        "tcp-short: 14 short inputs (minimal HTTP with Host / Host:port / absolute URI / bare IPv6 literal / empty host part / no host, the smallest "
         "ClientHello crypto/tls produces alone and followed by more records, binary/SSH/TLS-like/HTTP-like garbage, empty): every split "
         "point x second part at {0, D/2, D-1ns, D, D+1ns, D+1s}, every truncation x FIN {never, 0, D-1ns, D+1s}, byte-by-byte with the "
         "deadline cutting in at stepped offsets, zero-length reads around offsets 0/2/3/5, default timeout. "
         "tcp-http: generated requests 10 B..310 KiB (size classes around 4 KiB, 8-17 KiB, 64-192 KiB, 250-310 KiB; single header lines "
         "of 4-13 KiB), Host forms name / name:port / absolute URI / absolute URI with other Host header / absolute URI without Host / "
-        "CONNECT / IPv4 / [IPv6]:port / bare [IPv6] / missing / custom method, header-name case and whitespace variants, decoy names in "
+        "CONNECT / IPv4 / [IPv6]:port / bare [IPv6] / empty host part (\":8080\") / missing / custom method, header-name case and whitespace variants, decoy names in "
         "query, other headers, body and a pipelined second request; 1/12 truncated anywhere, 1/12 truncated in the last 4 header bytes, "
         "1/12 bit-flipped; plus random bytes behind a 3-letter probe. Schedules: one piece / 2..25 random pieces / fixed 1-16 byte "
         "pieces / 4095-4096-4097-8192 pieces / MTU-sized pieces; everything at t=0, spread before the deadline, or a gap placed at a "
